@@ -1,5 +1,6 @@
 import CfbVerif.Phys.Mini
 import CfbVerif.Phys.Api
+import CfbVerif.Phys.MiniInv
 /-!
 # C11 — mutating any file the library agreed to open never panics or hangs
 
@@ -24,7 +25,10 @@ Proved here, for *arbitrary* tables (no consistency assumed beyond the stated ra
 * `C11_free_mini_range`: `free_mini_sector` leaves only in-range indices on the mini free list
   (the pruning step), and `C11_popFreeMini_no_panic`: with in-range indices the pop loop of
   `allocate_mini_sector` has no panic exit — together: the index `minifat[free_idx]` is in range in
-  every state reached from one where it was.
+  every state reached from one where it was;
+* `C11_mini_pop_safe_reachable`, `C11_reuse_safe_reachable`: both range conditions hold in *every*
+  state the API model reaches from a fresh file (`miniRange_reachable`, `inv_reachable`: induction
+  over all histories), so on well-formed files these two unchecked indexings can never fail.
 -/
 namespace CfbVerif.Props.C11
 open CfbVerif.Phys CfbVerif.Raw
@@ -130,6 +134,25 @@ theorem C11_popFreeMini_no_panic (fuel : Nat) : ∀ (p : P), (∀ i ∈ p.freeMi
       · apply ih
         intro i hi
         exact hr i (List.dropLast_subset _ hi)
+
+/-- **in every state the API model reaches from a fresh file**, the pop loop of
+`allocate_mini_sector` has no panic exit: the mini free list never leaves the MiniFAT -/
+theorem C11_mini_pop_safe_reachable (v4 : Bool) (maxBuf : Nat) (ops : List CfbVerif.Dir.HOp) (fuel : Nat) :
+    ∀ s, popFreeMini (prun (PState.create v4 maxBuf) ops).p fuel ≠ .panic s :=
+  C11_popFreeMini_no_panic fuel _ (miniRange_reachable v4 maxBuf ops)
+
+/-- likewise the reuse branch of `allocate_sector`, in every reachable state below 2³² − 1 sectors -/
+theorem C11_reuse_safe_reachable (v4 : Bool) (maxBuf : Nat) (ops : List CfbVerif.Dir.HOp)
+    (small : Small (prun (PState.create v4 maxBuf) ops).p) (k : Init) (id : Nat)
+    (hl : (prun (PState.create v4 maxBuf) ops).p.free.getLast? = some id) :
+    ∀ s, allocateSector (prun (PState.create v4 maxBuf) ops).p k ≠ .panic s := by
+  have inv := inv_reachable v4 maxBuf ops small
+  refine C11_reuse_no_panic _ k id hl ?_
+  intro i hi
+  have := inv.fat.freeFree i hi
+  rcases Nat.lt_or_ge i (prun (PState.create v4 maxBuf) ops).p.fat.size with hc | hc
+  · exact hc
+  · rw [Array.getElem?_eq_none hc] at this; cases this
 
 /-- non-vacuity: a two-cycle is refused by the walk, so the hypothesis of
 `C11_walk_then_extend_terminates` excludes exactly the input on which the loop would spin -/
